@@ -177,7 +177,7 @@ def check_refs(case, agg):
     src_texts = ['~ id: src ~ $[1*][ @total = add(#0, 0) @last_c = #2 @by.k = #1 @yr.2023 = #0 push("seen", #0) #1 ]']
     if two:
         # the second member looks at its own group's variables while the group is still running
-        src_texts.append('~ id: other ~ $[1*][ @other_v = #0 @peek = $src.variables.total @late = line_number() yes() ]')
+        src_texts.append('~ id: other.v2 ~ $[1*][ @other_v = #0 @peek = $src.variables.total @late = line_number() yes() ]')
     cs.paths_manager.add_named_paths(name="src", paths=src_texts)
     use = '~ id: use ~ $[1*][ @t = $src.variables.total @lc = $src.variables.last_c @k = $src.variables.by.k @y = $src.variables.yr.2023 @st = $src.variables.seen ' + ("@hv = $src.headers.b.src @hl = $src.headers.c.src @hf = $src.headers.a.src " if two else "@hv = $src.headers.b @hl = $src.headers.c @hf = $src.headers.a ") + "]"
     cs.paths_manager.add_named_paths(name="user", paths=[use])
@@ -264,12 +264,15 @@ def check_refs(case, agg):
     # ---- (c) results reference used as the file name
     if case["method"] in ("collect_paths", "collect_by_line"):
         rds = cps.run_dirs("src")
-        scenarios = [(":last", rds[-1], "src_replay"), (":first", rds[0], "src_replay")]
+        scenarios = [(":last", rds[-1], "src_replay", "src"), (":first", rds[0], "src_replay", "src")]
         if not two:
             # a replay inside the referenced group itself: the run in progress is not its own ':last'
-            scenarios.append((":last", rds[-1], "src"))
-        for which, pick, runner in scenarios:
-            ref = f"$src.results.2025-03-{which}.src"
+            scenarios.append((":last", rds[-1], "src", "src"))
+        else:
+            # a member whose identity has a dot in it
+            scenarios.append((":last", rds[-1], "src_replay", "other.v2"))
+        for which, pick, runner, member_ in scenarios:
+            ref = f"$src.results.2025-03-{which}.{member_}"
             if runner == "src_replay" and which == ":last":
                 later = c10._NOW["t"]
                 c10._NOW["t"] = t_src_last  # same second as the most recent run of the referenced group
@@ -282,7 +285,7 @@ def check_refs(case, agg):
                 w["reference"] = ref
                 w["run_by_group"] = runner
                 return "results-reference-raises" + ("-same-group" if runner == "src" else ""), w
-            want_rows = cps.read_csv(os.path.join("archive", "src", pick, "src", "data.csv"))
+            want_rows = cps.read_csv(os.path.join("archive", "src", pick, member_, "data.csv"))
             read = [[str(v) for v in ev["line"]] for ev in rec2.lines]
             agg.count("references_checked")
             if read != want_rows:
@@ -294,7 +297,11 @@ def check_refs(case, agg):
 def make_refs(seed, shard, i):
     from vfy import cps
 
-    return {"kind": "refs", "rseed": f"{seed}:C20b:{shard}:{i}", "nruns": 1 + i % 3, "two_members": i % 4 == 3, "method": ["collect_paths", "collect_by_line", "collect_paths", "fast_forward_paths"][i % 4]}
+    two = i % 4 == 3
+    method = ["collect_paths", "collect_by_line", "collect_paths", "fast_forward_paths"][i % 4]
+    if two and (i // 4) % 2 == 0:
+        method = ["collect_paths", "collect_by_line"][(i // 8) % 2]  # (so that two-member groups are also replayed by reference)
+    return {"kind": "refs", "rseed": f"{seed}:C20b:{shard}:{i}", "nruns": 1 + i % 3, "two_members": two, "method": method}
 
 
 def run_one(case, agg):
